@@ -235,3 +235,62 @@ HARNESSES += [
     _dh("cardano_publish", ["to", "amount"]), _dh("cardano_publish", ["datum"]), _dh("cardano_publish", ["version", "script"]),
     _dh("plutus_witness", ["version", "script"]), _dh("native_witness", ["script"]),
 ]
+
+
+# ---- the coercions of the Cardano compiler are total over expression kinds ---------------------------
+
+def _expr_kinds(ctx, T):
+    n = ctx.sym_int("n", "i128")
+    addr = lambda bs: T.address(bs)
+    return _kinds(ctx, T)[1:] + [
+        ("empty asset list", T.assets([])),
+        ("two assets", T.assets([T.asset(T.none(), T.none(), T.num(n)), T.asset(T.bytes([7] * 28), T.bytes([1]), T.num(1))])),
+        ("asset with a non-number amount", T.assets([T.asset(T.none(), T.none(), T.string("x"))])),
+        ("empty list", T.list([])),
+        ("bool", T.boolean(True)),
+        ("struct", T.struct(0, [T.num(1)])),
+        ("utxo refs", T.v("Expression", "UtxoRefs", VecM([utxo_ref(T, [3] * 32, 1)]))),
+        ("empty utxo refs", T.v("Expression", "UtxoRefs", VecM([]))),
+        ("empty utxo set", T.v("Expression", "UtxoSet", MapM("HashSet", []))),
+        ("string txid#index", T.string("ab#1")),
+        ("string with a bad index", T.string("ab#x")),
+        ("unreduced parameter", T.v("Expression", "EvalParam", BoxV(T.v("Param", "ExpectFees")))),
+        ("byron address image", T.address([0x82, 0x00])),
+        ("pointer address", T.address([0x40] + [7] * 28 + [1, 2, 3])),
+    ]
+
+
+COERCIONS = ["expr_into_number", "expr_into_metadatum", "expr_into_utxo_refs", "expr_into_assets", "expr_into_reward_account", "expr_into_stake_credential",
+             "expr_into_address", "expr_into_address_keyhash", "expr_into_bytes", "expr_into_hash"]
+
+
+def h_coercions(ctx, tier, seed, fns):
+    """every coercion function of tx3-cardano on every kind of expression (33 kinds, integers over the
+    whole i128 range, empty lists and sets, malformed addresses): Ok or Err"""
+    eng = ctx.eng; T = TIR(eng)
+    kinds = _expr_kinds(ctx, T)
+    fn = fns[eng.choose(len(fns), "coercion")]
+    kname, v = kinds[eng.choose(len(kinds), "expression kind")]
+    net = eng.mk_variant("NetworkId", "Testnet", [])
+    f = eng.find(short=fn)
+    args = [ref_to_value(v)] + ([net] if fn in ("expr_into_reward_account", "expr_into_stake_credential", "expr_into_address") else [])
+    tp = {"SIZE": 28} if fn == "expr_into_hash" else None
+    r = no_panic(ctx, "%s on %s" % (fn, kname), lambda: eng.call_fn(f, args, tp))
+    if r is not None:
+        ctx.require(True, "%s returns" % fn)
+
+
+for _i in range(2):
+    HARNESSES.append(_h("c14m_coercions_%d" % _i, (lambda fs: lambda ctx, tier, seed: h_coercions(ctx, tier, seed, fs))(COERCIONS[_i::2]),
+                        "coercions %s x 33 expression kinds (integers: whole i128 range)" % ", ".join(COERCIONS[_i::2]), max_paths=60000))
+
+
+def h_wide_wallet_total(ctx, tier, seed):
+    """input selection over a wallet wider than the search window does not panic (the C04 harness,
+    whose store reaches MAX_SEARCH_SPACE_SIZE, run for its panic paths)"""
+    from harness import c04
+    c04.h_wide_wallet(ctx, tier, seed, 51 if tier == "quick" else 70)
+
+
+HARNESSES.append(_h("c14m_wide_wallet", h_wide_wallet_total, "2 input blocks over a concrete wallet of 51 (quick) / 70 (thorough) UTxOs: more candidates than MAX_SEARCH_SPACE_SIZE",
+                    crates=["tx3-resolver", "tx3-tir", "tx3-cardano"], max_paths=2000, time_limit=1200, max_steps=20000000))
